@@ -8638,7 +8638,11 @@ wp_mod_main:
 					break;
 
 				case 'u':
+					/* the + and space flags apply to signed conversions only */
+					fmt_flags |= 10;
 					fmt_uint = 1;
+					break;
+
 				default:
 					fmt_flags |= 10;
 					if (flags & FLAG_PLUS)
